@@ -816,6 +816,13 @@ func driveXbinary(opt *Options) error {
 	if s, ok := opt.Extra["steps"]; ok {
 		fmt.Sscan(s, &steps)
 	}
+	if opt.Extra["mode"] == "longrun" {
+		driveLongRuns(tw)
+		return nil
+	}
+	if opt.Extra["mode"] != "c16" {
+		driveBigBodies(tw, rnd)
+	}
 	for t := 0; t < opt.N; t++ {
 		tw.Emit(map[string]any{"op": "Reset"})
 		if opt.Extra["mode"] == "c16" {
@@ -1026,5 +1033,123 @@ func driveDecoders(tw *TraceWriter, rnd *rand.Rand, steps int) {
 			}
 		}
 		tw.Emit(ev)
+	}
+}
+
+// driveBigBodies: byte strings and strings around the 3 -> 4 byte length prefix boundary (2^21) and beyond,
+// plus the in-place compaction idiom on short and long values: decode without copying, re-encode the aliasing
+// value closer to the front of the same buffer, decode again.
+func driveBigBodies(tw *TraceWriter, rnd *rand.Rand) {
+	lens := []int{1, 2, 3, 7, 8, 9, 100, 127, 128, 16383, 16384, 1<<21 - 1, 1 << 21, 1<<21 + 1, 3 << 20, 1<<22 - 1, 1 << 22}
+	for _, ln := range lens {
+		for _, asString := range []bool{false, true} {
+			body := make([]byte, ln)
+			rnd.Read(body)
+			ev := map[string]any{"op": "Big", "len": ln, "string": asString, "panic": false}
+			func() {
+				defer func() {
+					if p := recover(); p != nil {
+						ev["panic"] = true
+					}
+				}()
+				var psize int
+				if asString {
+					psize = xbinary.WritableStringSize(string(body))
+				} else {
+					psize = xbinary.WritebleBytesSize(body)
+				}
+				ev["psize"] = psize
+				buf := make([]byte, psize+8)
+				var n int
+				var err error
+				if asString {
+					n, err = xbinary.MarshalString(string(body), buf[:psize])
+				} else {
+					n, err = xbinary.MarshalBytes(body, buf[:psize])
+				}
+				if err != nil {
+					n = -1
+				}
+				ev["n"] = n
+				// one byte short must be refused
+				short := make([]byte, psize-1)
+				var serr error
+				if asString {
+					_, serr = xbinary.MarshalString(string(body), short)
+				} else {
+					_, serr = xbinary.MarshalBytes(body, short)
+				}
+				ev["shortfails"] = serr != nil
+				var w bytes.Buffer
+				ow := &xbinary.ObjectsWriter{Writer: &w}
+				var nw int
+				if asString {
+					nw, _ = ow.WriteString(string(body))
+				} else {
+					nw, _ = ow.WriteBytes(body)
+				}
+				ev["nw"] = nw
+				consumed, got, derr := xbinary.UnmarshalBytes(buf[:psize], false)
+				ev["consumed"] = consumed
+				ev["rt"] = derr == nil && bytes.Equal(got, body) && bytes.Equal(w.Bytes(), buf[:minInt(psize, len(buf))])
+				// in-place compaction: the value sits at offset 8 of a page, is decoded without copying and
+				// re-encoded at offset 8-d of the same page (d = 1..7); it must still be the same value
+				ev["shift"] = true
+				for d := 1; d <= 7 && ev["shift"].(bool); d += 2 {
+					page := make([]byte, psize+16)
+					if asString {
+						xbinary.MarshalString(string(body), page[8:])
+					} else {
+						xbinary.MarshalBytes(body, page[8:])
+					}
+					_, alias, e1 := xbinary.UnmarshalBytes(page[8:], false)
+					if e1 != nil {
+						ev["shift"] = false
+						break
+					}
+					var e2 error
+					if asString {
+						_, s2, _ := xbinary.UnmarshalString(page[8:], false)
+						_, e2 = xbinary.MarshalString(s2, page[8-d:])
+					} else {
+						_, e2 = xbinary.MarshalBytes(alias, page[8-d:])
+					}
+					_, back, e3 := xbinary.UnmarshalBytes(page[8-d:], true)
+					ev["shift"] = e2 == nil && e3 == nil && bytes.Equal(back, body)
+				}
+			}()
+			for _, k := range []string{"psize", "n", "nw", "consumed"} {
+				if _, ok := ev[k]; !ok {
+					ev[k] = -1
+				}
+			}
+			for _, k := range []string{"rt", "shortfails", "shift"} {
+				if _, ok := ev[k]; !ok {
+					ev[k] = false
+				}
+			}
+			tw.Emit(ev)
+		}
+	}
+}
+
+// driveLongRuns: inputs of 16 MiB made of continuation bytes (an endless varint, also as the length prefix of a
+// byte string), with and without a terminator.  Run in its own process: a decoder that recurses per byte dies
+// with a stack overflow, which no recover() can catch.
+func driveLongRuns(tw *TraceWriter) {
+	const N = 16 << 20
+	mk := func(fill byte, term []byte) []byte {
+		b := make([]byte, N, N+len(term))
+		for i := range b {
+			b[i] = fill
+		}
+		return append(b, term...)
+	}
+	inputs := [][]byte{mk(0xff, nil), mk(0x80, nil), mk(0x80, []byte{0x01}), mk(0xff, []byte{0x00, 0x41})}
+	for _, in := range inputs {
+		for _, kind := range []string{"uint", "bytes", "string"} {
+			r := xUnmarshal(kind, in, false)
+			tw.Emit(map[string]any{"op": "Long", "kind": kind, "len": len(in), "ok": r.err == nil && r.panic == nil, "n": r.n, "panic": panicStr(r.panic)})
+		}
 	}
 }
